@@ -823,12 +823,16 @@ pub fn check(prop: &str, tier: &str) -> i32 {
 
 pub fn determinism(n: u64) -> i32 {
     let seed = base_seed();
-    let combos: Vec<(&str, &str)> = vec![
-        ("A", "sc"), ("A", "weak"), ("A", "sckill"), ("A", "weakkill"), ("A", "corrupt"), ("A", "busy"),
-        ("B", "pipeline"), ("B", "restart"), ("B", "outage"), ("B", "coldstart"), ("B", "workerdeath"), ("B", "synthetic"), ("B", "tight"), ("B", "leap"), ("B", "formula"), ("B", "abi"),
+    // (profile, cap on the number of seeds: the last five are heavy — millions of steps per run)
+    let combos: Vec<(&str, &str, u64)> = vec![
+        ("A", "sc", u64::MAX), ("A", "weak", u64::MAX), ("A", "sckill", u64::MAX), ("A", "weakkill", u64::MAX), ("A", "corrupt", u64::MAX), ("A", "busy", u64::MAX),
+        ("B", "pipeline", u64::MAX), ("B", "restart", u64::MAX), ("B", "outage", u64::MAX), ("B", "coldstart", u64::MAX), ("B", "workerdeath", u64::MAX), ("B", "synthetic", u64::MAX), ("B", "tight", u64::MAX), ("B", "leap", u64::MAX), ("B", "formula", u64::MAX), ("B", "abi", u64::MAX),
+        ("A", "deadwriter", 16), ("A", "sweep", 32), ("A", "sleeper", 4), ("A", "flood", 2), ("B", "epoch", 4),
     ];
     let mut bad = 0;
-    for (w, p) in combos {
+    let n_all = n;
+    for (w, p, cap) in combos {
+        let n = n_all.min(cap);
         let mut maps: Vec<BTreeMap<u64, u64>> = Vec::new();
         for nw in [1usize, 16, 7] {
             let res = run_workers(w, p, seed, n, "C00", true, nw);
